@@ -7,11 +7,13 @@ package main
 
 import (
 	"encoding/json"
+	"errors"
 	"fmt"
 	"io/ioutil"
 	"log"
 	"path/filepath"
 	"reflect"
+	"regexp"
 	"strings"
 
 	"github.com/samsarahq/thunder/graphql"
@@ -19,7 +21,11 @@ import (
 	"verifharness/pkg/vh"
 )
 
-const generic = "Internal server error"
+// what thunder sends instead of an unsafe error, taken from thunder itself
+var generic = graphql.SanitizeError(errors.New("x"))
+
+// the same in the Coq model (Gql/Envelope.v)
+const modelGeneric = "Internal server error"
 
 func js(v interface{}) string {
 	b, _ := json.Marshal(v)
@@ -46,7 +52,8 @@ func genCase(cr *vh.Rng) *gqlgen.Case {
 	c.Query = gqlgen.GenQuery(cr, spec, gqlgen.QOpts{PDir: 0, Depth: 2 + cr.Intn(3), AllowDup: true})
 	if single {
 		// exactly one of the resolver results the query uses fails
-		gqlgen.InjectFailure(cr, gqlgen.RefEval(spec, c.Data, c.Query.Prune()).Reached)
+		rr := gqlgen.RefEval(spec, c.Data, c.Query.Prune())
+		gqlgen.InjectFailure(cr, rr.Reached, rr.Enums)
 		c.Origin = "generated:single-failure"
 	}
 	for k := 0; k < 3; k++ {
@@ -63,6 +70,9 @@ func isBatchMode(md gqlgen.Modes, typ, field string) bool {
 	m := md[typ+"."+field]
 	return m.Kind == "batch" || (m.Kind == "fallback" && m.UseBatch)
 }
+
+// texts the harness's resolvers raise
+var injected = regexp.MustCompile(`E\d*\.[a-z]|S\.f`)
 
 func pathSim(a, b []string) bool {
 	if len(a) != len(b) {
@@ -93,6 +103,20 @@ func checkError(obs gqlgen.Observed, fs []gqlgen.RefFailure, md gqlgen.Modes, qn
 	for _, f := range fs {
 		if f.Kind == obs.Class && gqlgen.FailText(f.Kind, f.Msg) == obs.Text {
 			sameCause = append(sameCause, f)
+		}
+	}
+	if len(sameCause) == 0 && obs.Class == "err" && !injected.MatchString(obs.Text) {
+		// an error of thunder's own (its text is not compared): an enum value without a name, reported
+		// at the very element that holds it, whatever the execution mode
+		for _, f := range fs {
+			if f.Kind == "badenum" && reflect.DeepEqual(f.Path, obs.Path) {
+				return "", ""
+			}
+		}
+		for _, f := range fs {
+			if f.Kind == "badenum" {
+				return "wrong-error-path", fmt.Sprintf("got path %v (%q); the enum values without a name are at %s", obs.Path, obs.Full, js(fs))
+			}
 		}
 	}
 	if len(sameCause) == 0 {
@@ -299,7 +323,7 @@ func main() {
 		}
 		run.Hist(fmt.Sprintf("needed-failures:%d", min(len(ref.Failures), 4)))
 		for _, f := range ref.Failures {
-			if f.AfterNil && (f.Kind == "err" || f.Kind == "panic" || f.Kind == "wrapsafe" || f.Kind == "cancelwrap") {
+			if f.AfterNil && (f.Kind == "err" || f.Kind == "panic" || f.Kind == "wrapsafe" || f.Kind == "cancelwrap" || f.Kind == "badenum") {
 				run.Hist("unsafe-failure-after-nil-list-entry")
 				break
 			}
@@ -308,6 +332,17 @@ func main() {
 		run.Count(text+"|"+js(c.Data)+"|"+js(c.Modes), nontrivial)
 		if failing {
 			run.Sample(map[string]interface{}{"query": text, "needed_failures": ref.Failures, "ws": ws.Envelopes})
+		}
+		modelled := true
+		for _, f := range ref.Failures {
+			if f.Kind == "badenum" {
+				modelled = false // enum maps are outside the model
+				run.Hist("enum-value-without-name")
+				break
+			}
+		}
+		if !modelled {
+			continue
 		}
 		wsTerm := "None"
 		if haveWS && !ws.TimedOut {
@@ -366,7 +401,8 @@ func checkWS(ws gqlgen.WSResult, fs []gqlgen.RefFailure, failing bool, fail func
 			fail("ws-unexpected-envelopes", js(ws.Envelopes))
 		}
 		// the subscription lives on: the same id is refused
-		if len(ws.Resubscribe) != 1 || ws.Resubscribe[0]["type"] != "error" || ws.Resubscribe[0]["message"] != "duplicate subscription" {
+		// (refused: one error envelope for that id and no update; thunder's wording is its own business)
+		if len(ws.Resubscribe) != 1 || ws.Resubscribe[0]["type"] != "error" || ws.Resubscribe[0]["id"] != "s1" {
 			fail("ws-live-subscription-id-reusable", js(ws.Resubscribe))
 		}
 		return
@@ -377,18 +413,7 @@ func checkWS(ws gqlgen.WSResult, fs []gqlgen.RefFailure, failing bool, fail func
 	}
 	e := errs[0]
 	msg, _ := e["message"].(string)
-	ok := false
-	for _, f := range fs {
-		if (f.Kind == "safe" || f.Kind == "wrapped") && msg == f.Msg {
-			ok = true
-		}
-		if f.Kind == "custom" && msg == "public "+f.Msg {
-			ok = true
-		}
-		if (f.Kind == "err" || f.Kind == "panic" || f.Kind == "wrapsafe" || f.Kind == "cancelwrap") && msg == generic {
-			ok = true
-		}
-	}
+	ok := allowedMessage(msg, fs)
 	if !ok || e["id"] != "s1" {
 		fail("ws-error-message-wrong", fmt.Sprintf("envelope %s; needed failures %s", js(e), js(fs)))
 	}
@@ -397,11 +422,34 @@ func checkWS(ws gqlgen.WSResult, fs []gqlgen.RefFailure, failing bool, fail func
 	if !reflect.DeepEqual(ws.Log, []string{"subscribe:s1", "unsubscribe:s1"}) {
 		fail("ws-failed-subscription-not-closed", "logger saw "+js(ws.Log))
 	}
+	// the second subscription fails the way the first did: an error envelope of a needed failure
 	for _, e2 := range ws.Resubscribe {
-		if e2["message"] == "duplicate subscription" {
-			fail("ws-failed-subscription-not-closed", "same id refused: "+js(ws.Resubscribe))
+		m2, _ := e2["message"].(string)
+		if e2["type"] != "error" || !allowedMessage(m2, fs) {
+			fail("ws-failed-subscription-not-closed", "subscribing again with the same id: "+js(ws.Resubscribe))
 		}
 	}
+}
+
+// allowedMessage: the message an error envelope may carry when the needed failures are fs.
+func allowedMessage(msg string, fs []gqlgen.RefFailure) bool {
+	for _, f := range fs {
+		switch f.Kind {
+		case "safe", "wrapped":
+			if msg == f.Msg {
+				return true
+			}
+		case "custom":
+			if msg == "public "+f.Msg {
+				return true
+			}
+		default:
+			if msg == generic {
+				return true
+			}
+		}
+	}
+	return false
 }
 
 // checkHTTP: over HTTP a failing resolver yields an error response without data, carrying the text of
@@ -426,6 +474,12 @@ func checkHTTP(hr gqlgen.HTTPResult, fs []gqlgen.RefFailure, failing bool, refJS
 		if f.Kind == "custom" {
 			want = "detail of " + f.Msg
 		}
+		if f.Kind == "badenum" {
+			if strings.Contains(hr.Errors[0], strings.Join(f.Path, ".")+": ") {
+				return
+			}
+			continue
+		}
 		if strings.Contains(hr.Errors[0], want) {
 			return
 		}
@@ -440,6 +494,9 @@ func coqWS(ws gqlgen.WSResult) string {
 		switch e["type"] {
 		case "error":
 			m, _ := e["message"].(string)
+			if m == generic {
+				m = modelGeneric
+			}
 			xs = append(xs, fmt.Sprintf("WError %s %s", vh.CoqString(id), vh.CoqString(m)))
 		case "update":
 			xs = append(xs, "WUpdate "+vh.CoqString(id))
